@@ -10,6 +10,7 @@ from ..core import Run
 from ..facts import Facts
 from .. import hireval as H
 from ..terms import show, short, walk, calls
+from ..rules.common import is_err
 
 # transparent unary wrappers (term heads) when following a value
 TRANSPARENT_CALLS = (
@@ -168,12 +169,30 @@ def check_bridge(run, fx, ev):
                    nontrivial=False)
             continue
         args = [H.Sym("param", (p["name"],)) for p in f.params]
+        ev.lossy = []
         try:
             res = ev.call_fn(f, args)
         except (H.Panic, H.Budget) as e:
             run.bad(rule, key, "wrapper body could not be normalised (%s)" % e, f.loc)
             continue
         trace = list(ev.trace)
+        if ev.lossy and f.path not in COMPUTING:
+            # control flow of its own (an early return under a condition): every path that does not fail must go through
+            # the core call
+            expect0 = RENAMES.get(name, (name,))[0]
+            ev_p = H.Evaluator(fx)
+            ev_p.inline = ev.inline
+            try:
+                paths = ev_p.paths(f, args, max_paths=64)
+            except (H.Panic, H.Budget):
+                paths = None
+            if paths is not None:
+                stray = [show(r)[:80] for dec, r, tr in paths if not isinstance(r, H.Panic) and not is_err(r) and
+                         not any(is_core_path(c.parts[0]) and c.parts[0].rsplit("::", 1)[-1] == expect0 for c in tr)]
+                if stray:
+                    run.bad(rule, key, "FFI method `%s` has %d path(s) that produce a value without calling core `%s`: %s" %
+                            (name, len(stray), expect0, stray[:2]), f.loc)
+                    continue
         core_calls = [c for c in trace if is_core_path(c.parts[0]) and c.parts[0] not in ADAPTERS]
         # drop core calls that are arguments of other core calls' receivers only when adapters
         if not core_calls:
@@ -334,12 +353,31 @@ def check_compiled(run, fx, ev):
         n += 1
         key = f.path.replace("temporal_rs::builtins::compiled::", "")
         args = [H.Sym("param", (p["name"],)) for p in f.params]
+        ev.lossy = []
         try:
             res = ev.call_fn(f, args)
         except (H.Panic, H.Budget) as e:
             run.bad(rule, key, "wrapper body could not be normalised (%s)" % e, f.loc)
             continue
         name = f.name
+        if ev.lossy:
+            # the wrapper has control flow of its own: every path must still end in the core call
+            ev_p = H.Evaluator(fx)
+            ev_p.inline = ev.inline
+            try:
+                paths = ev_p.paths(f, args, max_paths=64)
+            except (H.Panic, H.Budget):
+                paths = None
+            if paths is None:
+                run.ok(rule, key, "wrapper with control flow the folder cannot enumerate: not decided", f.loc, nontrivial=False)
+                continue
+            stray = [show(r)[:80] for dec, r, tr in paths
+                     if not (isinstance(r, H.Sym) and r.what == "call" and any(str(r.parts[0]).endswith(sfx) for sfx in SUFFIXES))]
+            if stray:
+                run.bad(rule, key, "wrapper `%s` has %d path(s) that return without the core call: %s (the convenience method "
+                                   "then answers differently from the provider-taking method for the same arguments)" %
+                        (name, len(stray), stray[:2]), f.loc)
+                continue
         cands = [c for c in ev.trace if isinstance(c.parts[0], str) and c.parts[0].startswith("temporal_rs::")
                  and any(c.parts[0].endswith(s) for s in SUFFIXES)]
         if len(cands) != 1:
